@@ -399,7 +399,7 @@ pub fn stress(sseed: u64, calls: u64) -> Report {
     let tasks = 64u64;
     let per = calls / tasks;
     let started = std::time::Instant::now();
-    let done = rt.block_on(async {
+    let done = rt.block_on(async { tokio::time::timeout(Duration::from_secs(120), async {
         let mut hs = vec![];
         for t in 0..tasks {
             let svc = svc.clone();
@@ -437,7 +437,15 @@ pub fn stress(sseed: u64, calls: u64) -> Report {
             total += h.await.unwrap_or(0);
         }
         total
-    });
+    }).await });
+    let done = match done {
+        Ok(d) => d,
+        Err(_) => {
+            rt.shutdown_background();
+            rep.inconclusive = Some("stress run did not finish within 120s of wall clock".into());
+            return rep;
+        }
+    };
     let st = crate::world::lock(&w.st);
     let maxf = *st.max_inflight.get(&1).unwrap_or(&0);
     let left = *st.inflight.get(&1).unwrap_or(&0);
